@@ -390,4 +390,21 @@ Section FlatRetain.
     rewrite E. destruct (flat_step R rsize standalone above (flat_prologue R st) rc) as [st1 d].
     rewrite IH. reflexivity.
   Qed.
+
+  Lemma flat_prologue_no_target : forall st,
+    mkFS R (fl_kids R (flat_prologue R st)) false = flat_prologue R st.
+  Proof. intros [k t]. unfold flat_prologue. cbn [fl_target fl_kids]. destruct t; reflexivity. Qed.
+
+  (* a run of any number of consecutive rejected instances - all within one Read of the caller -
+     leaves the reader exactly where it was *)
+  Theorem rejected_run_leaves_nothing_proof : forall ys st rest,
+    flat_run R rsize false above st (map (fun y => FTarget R y false) ys ++ rest) =
+    flat_run R rsize false above (flat_prologue R st) rest.
+  Proof.
+    induction ys as [|y ys IH]; intros st rest.
+    - cbn [map app]. destruct rest as [|rc rest]; [reflexivity|].
+      cbn [flat_run]. rewrite flat_prologue_idem. reflexivity.
+    - cbn [map app flat_run flat_step]. rewrite removelast_last. cbn [app].
+      rewrite flat_prologue_no_target, (IH _ rest), flat_prologue_idem. reflexivity.
+  Qed.
 End FlatRetain.
